@@ -3,6 +3,7 @@ package verifh
 import (
 	"fmt"
 	"math"
+	"os"
 	"reflect"
 	"runtime"
 	"sync"
@@ -29,7 +30,14 @@ var propC16 = register(&Property{
 func genC16(rt *rapid.T, st *Stats) *Case {
 	var n int
 	var ies []iedge
-	if chance(rt, "medium", 1, 8) {
+	if chance(rt, "wide", 1, 25) {
+		// a band of 33..45 nodes (helper nodes of the added long edges included): thresholds on the length of a row
+		// (seeded/r2-m16 sums rows longer than 32 differently) are only reachable there
+		n, ies = genRootedWide(rt, rapid.IntRange(1, 2).Draw(rt, "wide_L"), rapid.IntRange(33, 45).Draw(rt, "wide_W"))
+		for k := rapid.IntRange(0, 3).Draw(rt, "wide_long"); k > 0 && n > 2; k-- {
+			ies = append(ies, iedge{pick(rt, "wl_a", n), pick(rt, "wl_b", n)})
+		}
+	} else if chance(rt, "medium", 1, 8) {
 		n = rapid.IntRange(10, 30).Draw(rt, "n")
 		ies = genConnN(rt, n, rapid.IntRange(0, n).Draw(rt, "extra"))
 	} else {
@@ -46,7 +54,7 @@ func genC16(rt *rapid.T, st *Stats) *Case {
 			}
 		}
 	}
-	c := &Case{Edges: toEdges(ies, nid)}
+	c := &Case{Edges: toEdges(ies, nameScheme(rt))}
 	genOptions(rt, c, NodeIDs(c.Edges), OptSpec{CBs: allCB, Lays: allLay, Poss: []int{PosVAlign, PosPackRight}, Rts: []int{RtNoop, RtPolyline},
 		Thorough: false, Virt: false, Sizes: 1, NSZero: true, LSZero: false, DefaultsOK: true})
 	c.Virt = true
@@ -155,7 +163,7 @@ func genC17(rt *rapid.T, st *Stats) *ScaleCase {
 	defer func() { dyadicOnly = false }()
 	maxN, maxM, _ := sizeRegime(rt, 930, 65, 5)
 	_, ies, _ := genGraph(rt, GraphSpec{MaxN: maxN, MaxM: maxM, Families: allFam, Union: true, SelfLoops: true, Parallel: true})
-	c := &Case{Edges: toEdges(ies, nid)}
+	c := &Case{Edges: toEdges(ies, nameScheme(rt))}
 	szMode := 0
 	if rapid.Bool().Draw(rt, "all_sized") {
 		szMode = 1 // every node gets its own size: heterogeneous widths are what makes the relation bite
@@ -275,9 +283,23 @@ var propC18 = register(&Property{
 })
 
 func genSmallCase(rt *rapid.T) *Case {
+	if os.Getenv("VERIF_C18_BIG") == "1" && chance(rt, "big_spline_case", 1, 3) {
+		// (TestC18Big only) a component with 66..72 routed edges under the spline router, which logs the most events:
+		// behaviour that only switches on above a count (seeded/r2-m18 mutes the monitor beyond 64 routes) is reachable
+		// only there. Sparse (50..60 nodes) because such a layout costs 0.1 s, a dense one up to a second.
+		n := rapid.IntRange(50, 60).Draw(rt, "big_n")
+		ies := genConnN(rt, n, rapid.IntRange(66-(n-1), 72-(n-1)).Draw(rt, "big_extra"))
+		k := rapid.IntRange(0, 2).Draw(rt, "big_loops")
+		for i := 0; i < k; i++ {
+			a := pick(rt, "big_loop_at", n)
+			ies = append(ies, iedge{a, a})
+		}
+		return &Case{Edges: toEdges(ies, nid), CB: detCB[pick(rt, "big_cb", 2)], Pos: []int{PosSink, PosVAlign, PosPackRight}[pick(rt, "big_pos", 3)], Rt: RtSplines,
+			SzMode: SzFixed, Fixed: Sz{40, 20}, NS: ptr(10.0), LS: ptr(30.0)}
+	}
 	_, ies, _ := genGraph(rt, GraphSpec{MaxN: 7, MaxM: 10, Families: allFam, Union: true, SelfLoops: true, Parallel: true})
 	c := &Case{Edges: toEdges(ies, nid)}
-	genOptions(rt, c, NodeIDs(c.Edges), OptSpec{CBs: detCB, Lays: allLay, Poss: allPos, BKForced: true, Rts: allRt,
+	genOptions(rt, c, NodeIDs(c.Edges), OptSpec{CBs: detCB, Lays: allLay, Poss: posFor(len(NodeIDs(c.Edges)), len(ies), allPos), BKForced: true, Rts: allRt,
 		Thorough: false, Virt: true, Sizes: 0, NSZero: true, LSZero: true, DefaultsOK: true})
 	if c.Rt == RtSplines && !inSplineSafeDomain(c) {
 		forceSplineSafe(rt, c, false)
@@ -418,6 +440,13 @@ func runHistory(hc *HistoryCase) *Outcome {
 	return h.o
 }
 
+// TestC18Big: the same state machine with big spline cases mixed in (few histories; see genSmallCase)
+func TestC18Big(t *testing.T) {
+	os.Setenv("VERIF_C18_BIG", "1")
+	defer os.Unsetenv("VERIF_C18_BIG")
+	TestC18(t)
+}
+
 func TestC18(t *testing.T) {
 	startWatchdog()
 	st := newStats("C18", propC18.Rule)
@@ -497,6 +526,20 @@ func genC15(rt *rapid.T, st *Stats) *ConcCase {
 	}
 	cc.GoMaxProcs = []int{1, 2, 4, 16}[pick(rt, "gomaxprocs", 4)]
 	cc.Rounds = rapid.IntRange(1, 4).Draw(rt, "rounds")
+	if chance(rt, "wide_job", 1, 12) {
+		// one job with layers of 33..40 nodes: buffers that are only shared / pooled above a size threshold
+		// (seeded/r2-m15 pools crossing-counter trees for layers wider than 32) are reachable only there
+		n, ies := genRootedWide(rt, 2, rapid.IntRange(33, 36).Draw(rt, "wide_W"))
+		_ = n
+		c := &Case{Edges: toEdges(ies, nid), Pos: []int{PosVAlign, PosSink, PosPackRight}[pick(rt, "wide_pos", 3)], Rt: []int{RtPolyline, RtNoop}[pick(rt, "wide_rt", 2)],
+			Lay: pick(rt, "wide_lay", 2), SzMode: SzFixed, Fixed: Sz{40, 20}}
+		cc.Jobs = append(cc.Jobs, c)
+		cc.Copies = max(2, min(cc.Copies, 3)) // under the race detector one such layout costs seconds
+		cc.Rounds = 1
+		if cc.GoMaxProcs < 4 {
+			cc.GoMaxProcs = 4
+		}
+	}
 	return cc
 }
 
